@@ -15,119 +15,119 @@ of change no generated history can exercise.
 namespace MW.Interface
 open MW MW.Staking MW.Generated.Interface
 
-def model_staking_UnsafeNativeChainConfig : Fields := [("account_address_prefix", "String"), ("validator_address_prefix", "String"), ("token_denom", "String"), ("validators", "Vec<String>"), ("unbonding_period", "u64"), ("staker_address", "String"), ("reward_collector_address", "String")]
+def model_staking_UnsafeNativeChainConfig : Fields := [("account_address_prefix", "String"), ("reward_collector_address", "String"), ("staker_address", "String"), ("token_denom", "String"), ("unbonding_period", "u64"), ("validator_address_prefix", "String"), ("validators", "Vec<String>")]
 
-def model_staking_UnsafeProtocolChainConfig : Fields := [("account_address_prefix", "String"), ("ibc_token_denom", "String"), ("ibc_channel_id", "String"), ("minimum_liquid_stake_amount", "Uint128"), ("oracle_address", "Option<String>")]
+def model_staking_UnsafeProtocolChainConfig : Fields := [("account_address_prefix", "String"), ("ibc_channel_id", "String"), ("ibc_token_denom", "String"), ("minimum_liquid_stake_amount", "Uint128"), ("oracle_address", "Option<String>")]
 
 def model_staking_UnsafeProtocolFeeConfig : Fields := [("dao_treasury_fee", "Uint128"), ("treasury_address", "Option<String>")]
 
-def model_staking_attrs : Fields := [("ExecuteMsg", "#[cw_serde]"), ("QueryMsg", "#[cw_serde] #[derive(QueryResponses)]"), ("SudoMsg", "#[cw_serde]"), ("IBCLifecycleComplete", "#[cw_serde]"), ("MigrateMsg", "#[cw_serde]"), ("InstantiateMsg", "#[cw_serde]"), ("UnsafeNativeChainConfig", "#[cw_serde]"), ("UnsafeProtocolChainConfig", "#[cw_serde]"), ("UnsafeProtocolFeeConfig", "#[cw_serde]"), ("Config", "#[cw_serde]"), ("NativeChainConfig", "#[cw_serde]"), ("ProtocolChainConfig", "#[cw_serde]"), ("ProtocolFeeConfig", "#[cw_serde]"), ("State", "#[cw_serde]"), ("UnstakeRequest", "#[cw_serde]"), ("IbcWaitingForReply", "#[cw_serde]"), ("IBCTransfer", "#[cw_serde]"), ("PacketLifecycleStatus", "#[cw_serde]"), ("Batch", "#[derive(Serialize,Deserialize,Clone,Debug,Eq,PartialEq,JsonSchema)]"), ("BatchStatus", "#[derive(Serialize,Deserialize,Clone,Debug,Eq,PartialEq,JsonSchema)]")]
+def model_staking_attrs : Fields := [("Batch", ""), ("BatchStatus", ""), ("Config", "#[cw_serde]"), ("ExecuteMsg", "#[cw_serde]"), ("IBCLifecycleComplete", "#[cw_serde]"), ("IBCTransfer", "#[cw_serde]"), ("IbcWaitingForReply", "#[cw_serde]"), ("InstantiateMsg", "#[cw_serde]"), ("MigrateMsg", "#[cw_serde]"), ("NativeChainConfig", "#[cw_serde]"), ("PacketLifecycleStatus", "#[cw_serde]"), ("ProtocolChainConfig", "#[cw_serde]"), ("ProtocolFeeConfig", "#[cw_serde]"), ("QueryMsg", "#[cw_serde]"), ("State", "#[cw_serde]"), ("SudoMsg", "#[cw_serde]"), ("UnsafeNativeChainConfig", "#[cw_serde]"), ("UnsafeProtocolChainConfig", "#[cw_serde]"), ("UnsafeProtocolFeeConfig", "#[cw_serde]"), ("UnstakeRequest", "#[cw_serde]")]
 
 def model_staking_entry_points : List String := ["execute", "instantiate", "migrate", "query", "reply", "sudo"]
 
 def model_staking_execute : Variants := [
-  ("liquid_stake", [("mint_to", "Option<String>"), ("transfer_to_native_chain", "Option<bool>"), ("expected_mint_amount", "Option<Uint128>")]),
-  ("liquid_unstake", []),
-  ("submit_batch", []),
-  ("withdraw", [("batch_id", "u64")]),
-  ("add_validator", [("new_validator", "String")]),
-  ("remove_validator", [("validator", "String")]),
-  ("transfer_ownership", [("new_owner", "String")]),
   ("accept_ownership", []),
-  ("revoke_ownership_transfer", []),
-  ("update_config", [("native_chain_config", "Option<UnsafeNativeChainConfig>"), ("protocol_chain_config", "Option<UnsafeProtocolChainConfig>"), ("protocol_fee_config", "Option<UnsafeProtocolFeeConfig>"), ("monitors", "Option<Vec<String>>"), ("batch_period", "Option<u64>")]),
+  ("add_validator", [("new_validator", "String")]),
+  ("circuit_breaker", []),
+  ("fee_withdraw", [("amount", "Uint128")]),
+  ("liquid_stake", [("expected_mint_amount", "Option<Uint128>"), ("mint_to", "Option<String>"), ("transfer_to_native_chain", "Option<bool>")]),
+  ("liquid_unstake", []),
   ("receive_rewards", []),
   ("receive_unstaked_tokens", [("batch_id", "u64")]),
-  ("circuit_breaker", []),
-  ("resume_contract", [("total_native_token", "Uint128"), ("total_liquid_stake_token", "Uint128"), ("total_reward_amount", "Uint128")]),
-  ("recover_pending_ibc_transfers", [("paginated", "Option<bool>"), ("selected_packets", "Option<Vec<u64>>"), ("receiver", "Option<String>")]),
-  ("fee_withdraw", [("amount", "Uint128")])]
+  ("recover_pending_ibc_transfers", [("paginated", "Option<bool>"), ("receiver", "Option<String>"), ("selected_packets", "Option<Vec<u64>>")]),
+  ("remove_validator", [("validator", "String")]),
+  ("resume_contract", [("total_liquid_stake_token", "Uint128"), ("total_native_token", "Uint128"), ("total_reward_amount", "Uint128")]),
+  ("revoke_ownership_transfer", []),
+  ("submit_batch", []),
+  ("transfer_ownership", [("new_owner", "String")]),
+  ("update_config", [("batch_period", "Option<u64>"), ("monitors", "Option<Vec<String>>"), ("native_chain_config", "Option<UnsafeNativeChainConfig>"), ("protocol_chain_config", "Option<UnsafeProtocolChainConfig>"), ("protocol_fee_config", "Option<UnsafeProtocolFeeConfig>")]),
+  ("withdraw", [("batch_id", "u64")])]
 
-def model_staking_instantiate : Fields := [("native_chain_config", "UnsafeNativeChainConfig"), ("protocol_chain_config", "UnsafeProtocolChainConfig"), ("protocol_fee_config", "UnsafeProtocolFeeConfig"), ("liquid_stake_token_denom", "String"), ("batch_period", "u64"), ("monitors", "Vec<String>")]
+def model_staking_instantiate : Fields := [("batch_period", "u64"), ("liquid_stake_token_denom", "String"), ("monitors", "Vec<String>"), ("native_chain_config", "UnsafeNativeChainConfig"), ("protocol_chain_config", "UnsafeProtocolChainConfig"), ("protocol_fee_config", "UnsafeProtocolFeeConfig")]
 
 def model_staking_lifecycle : Variants := [
-  ("ibc_ack", [("channel", "String"), ("sequence", "u64"), ("ack", "String"), ("success", "bool")]),
+  ("ibc_ack", [("ack", "String"), ("channel", "String"), ("sequence", "u64"), ("success", "bool")]),
   ("ibc_timeout", [("channel", "String"), ("sequence", "u64")])]
 
 def model_staking_migrate : Variants := [
   ("v0_4_18_to_v0_4_20", [("send_fees_to_treasury", "bool")]),
-  ("v0_4_20_to_v1_0_0", [("native_account_address_prefix", "String"), ("native_validator_address_prefix", "String"), ("native_token_denom", "String"), ("protocol_account_address_prefix", "String")]),
+  ("v0_4_20_to_v1_0_0", [("native_account_address_prefix", "String"), ("native_token_denom", "String"), ("native_validator_address_prefix", "String"), ("protocol_account_address_prefix", "String")]),
   ("v1_0_0_to_v1_1_0", [])]
 
 def model_staking_query : Variants := [
-  ("config", []),
-  ("state", []),
+  ("all_unstake_requests", [("limit", "Option<u32>"), ("start_after", "Option<u64>")]),
+  ("all_unstake_requests_v2", [("limit", "Option<u32>"), ("start_after", "Option<u64>")]),
   ("batch", [("id", "u64")]),
-  ("batches", [("start_after", "Option<u64>"), ("limit", "Option<u32>"), ("status", "Option<BatchStatus>")]),
+  ("batches", [("limit", "Option<u32>"), ("start_after", "Option<u64>"), ("status", "Option<BatchStatus>")]),
   ("batches_by_ids", [("ids", "Vec<u64>")]),
+  ("config", []),
+  ("ibc_queue", [("limit", "Option<u32>"), ("start_after", "Option<u64>")]),
+  ("ibc_reply_queue", [("limit", "Option<u32>"), ("start_after", "Option<u64>")]),
   ("pending_batch", []),
-  ("unstake_requests", [("user", "Addr")]),
-  ("all_unstake_requests", [("start_after", "Option<u64>"), ("limit", "Option<u32>")]),
-  ("all_unstake_requests_v2", [("start_after", "Option<u64>"), ("limit", "Option<u32>")]),
-  ("ibc_queue", [("start_after", "Option<u64>"), ("limit", "Option<u32>")]),
-  ("ibc_reply_queue", [("start_after", "Option<u64>"), ("limit", "Option<u32>")])]
+  ("state", []),
+  ("unstake_requests", [("user", "Addr")])]
 
-def model_staking_storage_keys : Fields := [("<fn>", "IndexedMap:unstake_requests"), ("<index>", "Index:unstake_requests_by_user"), ("ADMIN", "Admin:admin"), ("BATCHES", "Map:batches"), ("CONFIG", "Item:config"), ("IBC_WAITING_FOR_REPLY", "Map:ibc_waiting_for_reply"), ("INFLIGHT_PACKETS", "Map:inflight"), ("PENDING_BATCH_ID", "Item:pending_batch_id"), ("STATE", "Item:state")]
+def model_staking_storage_keys : Fields := [("item", "Admin:admin"), ("item", "Index:unstake_requests_by_user"), ("item", "IndexedMap:unstake_requests"), ("item", "Item:config"), ("item", "Item:pending_batch_id"), ("item", "Item:state"), ("item", "Map:batches"), ("item", "Map:ibc_waiting_for_reply"), ("item", "Map:inflight")]
 
-def model_staking_stored_Batch : Fields := [("id", "u64"), ("batch_total_liquid_stake", "Uint128"), ("expected_native_unstaked", "Option<Uint128>"), ("received_native_unstaked", "Option<Uint128>"), ("liquid_unstake_requests", "Option<Map<String,LiquidUnstakeRequest>>"), ("unstake_requests_count", "Option<u64>"), ("next_batch_action_time", "Option<u64>"), ("status", "BatchStatus")]
+def model_staking_stored_Batch : Fields := [("batch_total_liquid_stake", "Uint128"), ("expected_native_unstaked", "Option<Uint128>"), ("id", "u64"), ("liquid_unstake_requests", "Option<Map<String,LiquidUnstakeRequest>>"), ("next_batch_action_time", "Option<u64>"), ("received_native_unstaked", "Option<Uint128>"), ("status", "BatchStatus"), ("unstake_requests_count", "Option<u64>")]
 
 def model_staking_stored_BatchStatus : Variants := [
   ("Pending", []),
-  ("Submitted", []),
-  ("Received", [])]
+  ("Received", []),
+  ("Submitted", [])]
 
-def model_staking_stored_Config : Fields := [("native_chain_config", "NativeChainConfig"), ("protocol_chain_config", "ProtocolChainConfig"), ("protocol_fee_config", "ProtocolFeeConfig"), ("liquid_stake_token_denom", "String"), ("monitors", "Vec<Addr>"), ("batch_period", "u64"), ("stopped", "bool")]
+def model_staking_stored_Config : Fields := [("batch_period", "u64"), ("liquid_stake_token_denom", "String"), ("monitors", "Vec<Addr>"), ("native_chain_config", "NativeChainConfig"), ("protocol_chain_config", "ProtocolChainConfig"), ("protocol_fee_config", "ProtocolFeeConfig"), ("stopped", "bool")]
 
-def model_staking_stored_IBCTransfer : Fields := [("sequence", "u64"), ("amount", "Coin"), ("receiver", "String"), ("status", "PacketLifecycleStatus")]
+def model_staking_stored_IBCTransfer : Fields := [("amount", "Coin"), ("receiver", "String"), ("sequence", "u64"), ("status", "PacketLifecycleStatus")]
 
 def model_staking_stored_IbcWaitingForReply : Fields := [("amount", "Coin"), ("receiver", "String")]
 
-def model_staking_stored_NativeChainConfig : Fields := [("account_address_prefix", "String"), ("validator_address_prefix", "String"), ("token_denom", "String"), ("validators", "Vec<Addr>"), ("unbonding_period", "u64"), ("staker_address", "Addr"), ("reward_collector_address", "Addr")]
+def model_staking_stored_NativeChainConfig : Fields := [("account_address_prefix", "String"), ("reward_collector_address", "Addr"), ("staker_address", "Addr"), ("token_denom", "String"), ("unbonding_period", "u64"), ("validator_address_prefix", "String"), ("validators", "Vec<Addr>")]
 
 def model_staking_stored_PacketLifecycleStatus : Variants := [
-  ("sent", []),
-  ("ack_success", []),
   ("ack_failure", []),
+  ("ack_success", []),
+  ("sent", []),
   ("timed_out", [])]
 
 def model_staking_stored_ProtocolChainConfig : Fields := [("account_address_prefix", "String"), ("ibc_channel_id", "String"), ("ibc_token_denom", "String"), ("minimum_liquid_stake_amount", "Uint128"), ("oracle_address", "Option<Addr>")]
 
 def model_staking_stored_ProtocolFeeConfig : Fields := [("dao_treasury_fee", "Uint128"), ("treasury_address", "Option<Addr>")]
 
-def model_staking_stored_State : Fields := [("total_native_token", "Uint128"), ("total_liquid_stake_token", "Uint128"), ("pending_owner", "Option<Addr>"), ("owner_transfer_min_time", "Option<Timestamp>"), ("total_reward_amount", "Uint128"), ("rate", "Uint128"), ("total_fees", "Uint128"), ("ibc_id_counter", "u64")]
+def model_staking_stored_State : Fields := [("ibc_id_counter", "u64"), ("owner_transfer_min_time", "Option<Timestamp>"), ("pending_owner", "Option<Addr>"), ("rate", "Uint128"), ("total_fees", "Uint128"), ("total_liquid_stake_token", "Uint128"), ("total_native_token", "Uint128"), ("total_reward_amount", "Uint128")]
 
-def model_staking_stored_UnstakeRequest : Fields := [("batch_id", "u64"), ("user", "String"), ("amount", "Uint128")]
+def model_staking_stored_UnstakeRequest : Fields := [("amount", "Uint128"), ("batch_id", "u64"), ("user", "String")]
 
 def model_staking_sudo : Variants := [
   ("ibc_lifecycle_complete", [("0", "IBCLifecycleComplete")])]
 
 def model_treasury_SwapRoute : Fields := [("pool_id", "u64"), ("token_in_denom", "String"), ("token_out_denom", "String")]
 
-def model_treasury_attrs : Fields := [("State", "#[cw_serde]"), ("Config", "#[cw_serde]"), ("ExecuteMsg", "#[cw_serde]"), ("QueryMsg", "#[cw_serde] #[derive(QueryResponses)]"), ("InstantiateMsg", "#[cw_serde]"), ("MigrateMsg", "#[cw_serde]"), ("SwapRoute", "#[cw_serde]")]
+def model_treasury_attrs : Fields := [("Config", "#[cw_serde]"), ("ExecuteMsg", "#[cw_serde]"), ("InstantiateMsg", "#[cw_serde]"), ("MigrateMsg", "#[cw_serde]"), ("QueryMsg", "#[cw_serde]"), ("State", "#[cw_serde]"), ("SwapRoute", "#[cw_serde]")]
 
 def model_treasury_entry_points : List String := ["execute", "instantiate", "migrate", "query"]
 
 def model_treasury_execute : Variants := [
-  ("transfer_ownership", [("new_owner", "String")]),
   ("accept_ownership", []),
   ("revoke_ownership_transfer", []),
-  ("spend_funds", [("amount", "Coin"), ("receiver", "String"), ("channel_id", "Option<String>")]),
+  ("spend_funds", [("amount", "Coin"), ("channel_id", "Option<String>"), ("receiver", "String")]),
   ("swap_exact_amount_in", [("routes", "Vec<SwapRoute>"), ("token_in", "Coin"), ("token_out_min_amount", "u128")]),
-  ("swap_exact_amount_out", [("routes", "Vec<SwapRoute>"), ("token_out", "Coin"), ("token_in_max_amount", "u128")]),
-  ("update_config", [("trader", "Option<String>"), ("allowed_swap_routes", "Option<Vec<Vec<SwapRoute>>>")])]
+  ("swap_exact_amount_out", [("routes", "Vec<SwapRoute>"), ("token_in_max_amount", "u128"), ("token_out", "Coin")]),
+  ("transfer_ownership", [("new_owner", "String")]),
+  ("update_config", [("allowed_swap_routes", "Option<Vec<Vec<SwapRoute>>>"), ("trader", "Option<String>")])]
 
-def model_treasury_instantiate : Fields := [("admin", "Option<String>"), ("trader", "Option<String>"), ("allowed_swap_routes", "Vec<Vec<SwapRoute>>")]
+def model_treasury_instantiate : Fields := [("admin", "Option<String>"), ("allowed_swap_routes", "Vec<Vec<SwapRoute>>"), ("trader", "Option<String>")]
 
 def model_treasury_migrate : Fields := []
 
 def model_treasury_query : Variants := [
   ("config", [])]
 
-def model_treasury_storage_keys : Fields := [("ADMIN", "Admin:admin"), ("CONFIG", "Item:config"), ("STATE", "Item:state")]
+def model_treasury_storage_keys : Fields := [("item", "Admin:admin"), ("item", "Item:config"), ("item", "Item:state")]
 
-def model_treasury_stored_Config : Fields := [("trader", "Addr"), ("allowed_swap_routes", "Vec<Vec<SwapRoute>>")]
+def model_treasury_stored_Config : Fields := [("allowed_swap_routes", "Vec<Vec<SwapRoute>>"), ("trader", "Addr")]
 
-def model_treasury_stored_State : Fields := [("pending_owner", "Option<Addr>"), ("owner_transfer_min_time", "Option<Timestamp>")]
+def model_treasury_stored_State : Fields := [("owner_transfer_min_time", "Option<Timestamp>"), ("pending_owner", "Option<Addr>")]
 
 /-- the source variant (serde name) each constructor of the model's `ExecMsg` stands for -/
 def execTag : ExecMsg → String
@@ -148,11 +148,11 @@ def execTag : ExecMsg → String
   | .recover .. => "recover_pending_ibc_transfers"
   | .feeWithdraw _ => "fee_withdraw"
 
-/-- one message per constructor, in declaration order -/
+/-- one message per constructor, in the (alphabetical) order of the tables -/
 def execSamples : List ExecMsg :=
-  [.liquidStake none none none, .liquidUnstake, .submitBatch, .withdraw 0, .addValidator "", .removeValidator "",
-   .transferOwnership "", .acceptOwnership, .revokeOwnershipTransfer, .updateConfig none none none none none,
-   .receiveRewards, .receiveUnstakedTokens 0, .circuitBreaker, .resumeContract 0 0 0, .recover none none none, .feeWithdraw 0]
+  [.acceptOwnership, .addValidator "", .circuitBreaker, .feeWithdraw 0, .liquidStake none none none, .liquidUnstake,
+   .receiveRewards, .receiveUnstakedTokens 0, .recover none none none, .removeValidator "", .resumeContract 0 0 0,
+   .revokeOwnershipTransfer, .submitBatch, .transferOwnership "", .updateConfig none none none none none, .withdraw 0]
 
 def sudoTag : SudoMsg → String
   | .ack .. => "ibc_ack"
@@ -175,8 +175,8 @@ def texecTag : TExec → String
 
 open MW.Treasury in
 def texecSamples : List TExec :=
-  [.transferOwnership "", .acceptOwnership, .revokeOwnershipTransfer, .spendFunds ⟨"", 0⟩ "" none, .swapIn [] ⟨"", 0⟩ 0,
-   .swapOut [] ⟨"", 0⟩ 0, .updateConfig none none]
+  [.acceptOwnership, .revokeOwnershipTransfer, .spendFunds ⟨"", 0⟩ "" none, .swapIn [] ⟨"", 0⟩ 0, .swapOut [] ⟨"", 0⟩ 0,
+   .transferOwnership "", .updateConfig none none]
 
 def names (v : Variants) : List String := v.map (·.1)
 
